@@ -1,1 +1,208 @@
-(* Props/C06.v -- stub, to be filled in *)
+(* Props/C06.v -- property theorems only: Theorem / exact lemma / Check (pins the statement) / Print Assumptions.
+
+   C06: all views of a sparse matrix agree; the compressed-column form stays well-formed.
+   All theorems are about the Gallina model Model/Sparse.v of src/sparse.rs:1-300 (six public CSC
+   fields, every guard / index / usize subtraction checked), tied to the code by the correspondence
+   check of driver/c06.py.  They hold for every arithmetic (no law of the element type is used:
+   C06 is about structure), all shapes, all values, all histories -- no numeric bound.
+
+   [wfS s]: col_start has cols+1 entries, starts at 0, is non-decreasing and ends at
+   nonzero = |val| = |row_index|; every row index is < rows.
+   [ents s]: the stored entries (row_index[k], j, val[k]) in the order of the column walk.
+   [NoDupKeys s] / [NoDupKeysL ts]: no position (row, column) occurs twice.
+   [absS s]: the abstract matrix, the partial map (i,j) |-> sp_get s i j.
+
+   Differences from DESIGN Appendix E (forced by the model, none weakens a statement):
+   * from_triplets_wf is stronger: the triplet list of the result is *equal* to the stably
+     column-sorted input ([sort_by_col], the modelled semantics of Vec::sort_by_key), and that is
+     a permutation of the input.
+   * wfS_step / wfS_history are the partial-correctness statements pinned in Appendix E ("if the
+     history returns, the result is well-formed"); history_total adds that every history whose
+     insertions address positions inside the current shape does return (duplicates allowed).
+   * views_agree states the dense view through the modelled dense index [mget D i j] and adds the
+     two list views (to_triplets = the column walk, col_index = the column of each stored entry).
+   * sp_refines_map is stated for whole histories: the abstraction is the lookup function, the
+     specification steps are point update / value map / argument swap on partial maps, and
+     agreement is on the in-range positions of the final shape. *)
+From Coq Require Import List Arith ZArith QArith Qcanon Lia Permutation.
+From OV Require Import Base.Panic Base.Arith Base.Flat Model.Vector Model.Matrix Model.Sparse Inst.QcInst
+                       Proofs.SparseBase Proofs.SparseMul Proofs.SparseWf Proofs.SparseHist
+                       Proofs.SparseViews Proofs.SparseRefine Proofs.SparseTranspose Proofs.SparseFinal Proofs.SparseVecs.
+Import ListNotations.
+Local Open Scope nat_scope.
+
+Theorem from_triplets_wf : forall (A : Arith) r c (ts : list (triplet A)),
+  (forall t, In t ts -> trow t < r /\ tcol t < c) ->
+  exists s, sp_from_triplets r c ts = Ok s /\ wfS s /\ sp_rows s = r /\ sp_cols s = c /\
+            sp_to_triplets s = Ok (sort_by_col ts) /\ Permutation (sort_by_col ts) ts.
+Proof. intros A r c ts. exact (from_triplets_wf_lemma r c ts). Qed.
+Check from_triplets_wf : forall (A : Arith) r c (ts : list (triplet A)),
+  (forall t, In t ts -> trow t < r /\ tcol t < c) ->
+  exists s, sp_from_triplets r c ts = Ok s /\ wfS s /\ sp_rows s = r /\ sp_cols s = c /\
+            sp_to_triplets s = Ok (sort_by_col ts) /\ Permutation (sort_by_col ts) ts.
+Print Assumptions from_triplets_wf.
+
+(* raw arrays: from_vecs echoes well-formed arrays (nonzero = the last column start) *)
+Theorem from_vecs_wf : forall (A : Arith) r c (v : list A) (ri cs : list nat),
+  wfS (mkS r c (nth c cs 0) v ri cs) ->
+  sp_from_vecs r c v ri cs = Ok (mkS r c (nth c cs 0) v ri cs).
+Proof. intros A r c v ri cs. exact (from_vecs_wf_lemma r c v ri cs). Qed.
+Check from_vecs_wf : forall (A : Arith) r c (v : list A) (ri cs : list nat),
+  wfS (mkS r c (nth c cs 0) v ri cs) ->
+  sp_from_vecs r c v ri cs = Ok (mkS r c (nth c cs 0) v ri cs).
+Print Assumptions from_vecs_wf.
+
+(* one modifying step: insert (overwrite or rebuild), scale, transpose *)
+Theorem wfS_step : forall (A : Arith) (s s' : sparse A) (o : sop A),
+  wfS s -> sp_step s o = Ok s' -> wfS s'.
+Proof. intros A s s' o. exact (sp_step_wf s s' o). Qed.
+Check wfS_step : forall (A : Arith) (s s' : sparse A) (o : sop A),
+  wfS s -> sp_step s o = Ok s' -> wfS s'.
+Print Assumptions wfS_step.
+
+(* any finite history *)
+Theorem wfS_history : forall (A : Arith) (ops : list (sop A)) (s : sparse A),
+  wfS s -> forall s', sp_run ops s = Ok s' -> wfS s'.
+Proof. intros A ops s. exact (wfS_history_lemma ops s). Qed.
+Check wfS_history : forall (A : Arith) (ops : list (sop A)) (s : sparse A),
+  wfS s -> forall s', sp_run ops s = Ok s' -> wfS s'.
+Print Assumptions wfS_history.
+
+(* ... and every in-range history does return *)
+Theorem history_total : forall (A : Arith) (ops : list (sop A)) (s : sparse A),
+  wfS s -> ops_ok (sp_rows s) (sp_cols s) ops ->
+  exists s', sp_run ops s = Ok s' /\ wfS s' /\ (sp_rows s', sp_cols s') = dims_after (sp_rows s) (sp_cols s) ops.
+Proof. intros A ops s. exact (history_total_lemma ops s). Qed.
+Check history_total : forall (A : Arith) (ops : list (sop A)) (s : sparse A),
+  wfS s -> ops_ok (sp_rows s) (sp_cols s) ops ->
+  exists s', sp_run ops s = Ok s' /\ wfS s' /\ (sp_rows s', sp_cols s') = dims_after (sp_rows s) (sp_cols s) ops.
+Print Assumptions history_total.
+
+(* the four views describe one matrix *)
+Theorem views_agree : forall (A : Arith) (s : sparse A), wfS s -> NoDupKeys s ->
+  sp_to_triplets s = Ok (ents s) /\
+  sp_col_index s = Ok (map (@tcol A) (ents s)) /\
+  exists D, sp_to_dense s = Ok D /\ rows D = sp_rows s /\ cols D = sp_cols s /\
+  forall i j, i < sp_rows s -> j < sp_cols s ->
+    (forall v, sp_get s i j = Ok (Some v) <-> In (i, j, v) (ents s)) /\
+    (exists o, sp_get s i j = Ok o /\ mget D i j = Ok (match o with Some v => v | None => zero end)).
+Proof. intros A s. exact (views_agree_lemma s). Qed.
+Check views_agree : forall (A : Arith) (s : sparse A), wfS s -> NoDupKeys s ->
+  sp_to_triplets s = Ok (ents s) /\
+  sp_col_index s = Ok (map (@tcol A) (ents s)) /\
+  exists D, sp_to_dense s = Ok D /\ rows D = sp_rows s /\ cols D = sp_cols s /\
+  forall i j, i < sp_rows s -> j < sp_cols s ->
+    (forall v, sp_get s i j = Ok (Some v) <-> In (i, j, v) (ents s)) /\
+    (exists o, sp_get s i j = Ok o /\ mget D i j = Ok (match o with Some v => v | None => zero end)).
+Print Assumptions views_agree.
+
+(* construction does not depend on the order of the triplets *)
+Theorem order_independent : forall (A : Arith) r c (ts ts' : list (triplet A)),
+  Permutation ts ts' -> NoDupKeysL ts -> (forall t, In t ts -> trow t < r /\ tcol t < c) ->
+  exists s s', sp_from_triplets r c ts = Ok s /\ sp_from_triplets r c ts' = Ok s' /\
+    forall i j, i < r -> j < c -> sp_get s i j = sp_get s' i j.
+Proof. intros A r c ts ts'. exact (order_independent_lemma r c ts ts'). Qed.
+Check order_independent : forall (A : Arith) r c (ts ts' : list (triplet A)),
+  Permutation ts ts' -> NoDupKeysL ts -> (forall t, In t ts -> trow t < r /\ tcol t < c) ->
+  exists s s', sp_from_triplets r c ts = Ok s /\ sp_from_triplets r c ts' = Ok s' /\
+    forall i j, i < r -> j < c -> sp_get s i j = sp_get s' i j.
+Print Assumptions order_independent.
+
+(* transpose is a (stable counting) sort of the swapped entries: it returns, and nothing is lost or invented *)
+Theorem transpose_entries : forall (A : Arith) (s : sparse A), wfS s ->
+  exists s', sp_transpose s = Ok s' /\ wfS s' /\ sp_rows s' = sp_cols s /\ sp_cols s' = sp_rows s /\
+             Permutation (ents s') (map tswap (ents s)).
+Proof. intros A s. exact (sp_transpose_spec_lemma s). Qed.
+Check transpose_entries : forall (A : Arith) (s : sparse A), wfS s ->
+  exists s', sp_transpose s = Ok s' /\ wfS s' /\ sp_rows s' = sp_cols s /\ sp_cols s' = sp_rows s /\
+             Permutation (ents s') (map tswap (ents s)).
+Print Assumptions transpose_entries.
+
+(* P2: every history refines the same history of finite-map operations on the abstract matrix *)
+Theorem sp_refines_map : forall (A : Arith) (ops : list (sop A)) (s : sparse A), wfS s -> NoDupKeys s ->
+  ops_ok (sp_rows s) (sp_cols s) ops ->
+  exists s', sp_run ops s = Ok s' /\ wfS s' /\ NoDupKeys s' /\
+    (sp_rows s', sp_cols s') = dims_after (sp_rows s) (sp_cols s) ops /\
+    agree (sp_rows s') (sp_cols s') (absS s') (spec_run ops (absS s)).
+Proof. intros A ops s. exact (sp_refines_map_lemma ops s). Qed.
+Check sp_refines_map : forall (A : Arith) (ops : list (sop A)) (s : sparse A), wfS s -> NoDupKeys s ->
+  ops_ok (sp_rows s) (sp_cols s) ops ->
+  exists s', sp_run ops s = Ok s' /\ wfS s' /\ NoDupKeys s' /\
+    (sp_rows s', sp_cols s') = dims_after (sp_rows s) (sp_cols s) ops /\
+    agree (sp_rows s') (sp_cols s') (absS s') (spec_run ops (absS s)).
+Print Assumptions sp_refines_map.
+
+(* ---- non-vacuity: the hypotheses hold for concrete non-trivial inputs at the exact instance ---- *)
+Definition ex_ts : list (triplet AQ) :=
+  [(2, 3, q 5 3); (0, 1, q (-1) 2); (1, 2, q 7 1); (2, 1, q 2 1)].      (* not in column order; column 0 empty *)
+Definition ex_ts' : list (triplet AQ) :=
+  [(0, 1, q (-1) 2); (2, 1, q 2 1); (2, 3, q 5 3); (1, 2, q 7 1)].
+
+Example ex_ts_in_range : forall t, In t ex_ts -> trow t < 3 /\ tcol t < 4.
+Proof.
+  intros t Ht. unfold ex_ts in Ht. cbn [In] in Ht.
+  repeat (destruct Ht as [<-|Ht]; [unfold trow, tcol; cbn [fst snd]; lia|]). destruct Ht.
+Qed.
+
+Example from_triplets_wf_nonvacuous :
+  (forall t, In t ex_ts -> trow t < 3 /\ tcol t < 4) /\
+  fl_res (fun s => fl_list fl_nat (sp_col_start s) ++ fl_list fl_nat (sp_row_index s)) (sp_from_triplets 3 4 ex_ts)
+  = [0; 5; 0; 0; 0; 0; 0; 2; 0; 3; 0; 4;  0; 4; 0; 0; 0; 2; 0; 1; 0; 2]%Z.    (* col_start [0;0;2;3;4], row_index [0;2;1;2] *)
+Proof. split; [exact ex_ts_in_range|]. vm_compute. reflexivity. Qed.
+
+Example order_independent_nonvacuous :
+  Permutation ex_ts ex_ts' /\ NoDupKeysL ex_ts /\ (forall t, In t ex_ts -> trow t < 3 /\ tcol t < 4).
+Proof.
+  split; [|split; [|exact ex_ts_in_range]].
+  - unfold ex_ts, ex_ts'.
+    apply (perm_trans (l' := [(0, 1, q (-1) 2); (2, 3, q 5 3); (1, 2, q 7 1); (2, 1, q 2 1)])); [apply perm_swap|].
+    apply perm_skip.
+    apply (perm_trans (l' := [(2, 3, q 5 3); (2, 1, q 2 1); (1, 2, q 7 1)])); [apply perm_skip, perm_swap|].
+    apply (perm_trans (l' := [(2, 1, q 2 1); (2, 3, q 5 3); (1, 2, q 7 1)])); [apply perm_swap|]. apply Permutation_refl.
+  - unfold NoDupKeysL, ex_ts, tkey, trow, tcol. cbn [map fst snd].
+    repeat constructor; cbn [In]; intros H; repeat (destruct H as [H|H]; [discriminate H|]); destruct H.
+Qed.
+
+Definition ex_s : sparse AQ :=
+  @mkS AQ 3 4 4 [q 2 1; q (-1) 2; q 7 1; q 5 3] [2; 0; 1; 2] [0; 0; 2; 3; 4].
+Definition ex_ops : list (sop AQ) :=
+  [@SInsert AQ 1 0 (q 9 1); @STranspose AQ; @SInsert AQ 3 2 (q 1 2); @SScale AQ (q (-2) 1); @SInsert AQ 3 2 (q 4 1); @STranspose AQ].
+
+Example ex_s_wf : wfS ex_s.
+Proof.
+  unfold wfS, ex_s; cbn [sp_rows sp_cols sp_nonzero sp_val sp_row_index sp_col_start length nth Nat.add].
+  repeat split; try reflexivity.
+  - intros j Hj. do 4 (destruct j as [|j]; [cbn [nth Nat.add]; lia|]). lia.
+  - intros k Hk. do 4 (destruct k as [|k]; [cbn [nth]; lia|]). lia.
+Qed.
+
+Example ex_s_nodup : NoDupKeys ex_s.
+Proof.
+  unfold NoDupKeys, ents, visits, seg, ent, ex_s, trow, tcol.
+  cbn [sp_rows sp_cols sp_nonzero sp_val sp_row_index sp_col_start seq flat_map map nth Nat.add Nat.sub app fst snd].
+  repeat constructor; cbn [In]; intros H; repeat (destruct H as [H|H]; [discriminate H|]); destruct H.
+Qed.
+
+Example ex_ops_ok : ops_ok (sp_rows ex_s) (sp_cols ex_s) ex_ops.
+Proof. unfold ex_ops, ex_s. cbn [ops_ok sp_rows sp_cols]. repeat split; lia. Qed.
+
+(* fresh insertion, transposition, insertion, scaling, overwrite, transposition: the history returns *)
+Example wfS_history_nonvacuous : wfS ex_s /\ is_ok (sp_run ex_ops ex_s) = true /\
+  is_ok (sp_step ex_s (@SInsert AQ 1 0 (q 9 1))) = true.
+Proof. split; [exact ex_s_wf|]. split; vm_compute; reflexivity. Qed.
+
+Example history_total_nonvacuous : wfS ex_s /\ ops_ok (sp_rows ex_s) (sp_cols ex_s) ex_ops.
+Proof. split; [exact ex_s_wf|exact ex_ops_ok]. Qed.
+
+Example views_agree_nonvacuous : wfS ex_s /\ NoDupKeys ex_s.
+Proof. split; [exact ex_s_wf|exact ex_s_nodup]. Qed.
+
+Example transpose_entries_nonvacuous : wfS ex_s.
+Proof. exact ex_s_wf. Qed.
+
+Example sp_refines_map_nonvacuous : wfS ex_s /\ NoDupKeys ex_s /\ ops_ok (sp_rows ex_s) (sp_cols ex_s) ex_ops.
+Proof. split; [exact ex_s_wf|]. split; [exact ex_s_nodup|exact ex_ops_ok]. Qed.
+
+Example from_vecs_wf_nonvacuous :
+  wfS (@mkS AQ 3 4 (nth 4 [0; 0; 2; 3; 4] 0) [q 2 1; q (-1) 2; q 7 1; q 5 3] [2; 0; 1; 2] [0; 0; 2; 3; 4]).
+Proof. exact ex_s_wf. Qed.
